@@ -327,9 +327,13 @@ def storage_origin(prog, fi: FuncInfo, expr: ast.AST, cfg, IN, at: int, depth: i
 def rule_r6(prog, res) -> None:
     """resampling and derived quantities never update an array in place that is (a view of) the storage of a
     container or of an argument: the inputs of a jackknife stay what they were"""
+    inplace_rule(prog, res, "C03.R6", ("yaw.correlation", "yaw.redshifts"), "the stored pair counts / samples are overwritten, every later sample or sum is computed from corrupted inputs")
+
+
+def inplace_rule(prog, res, rule: str, modules: tuple, consequence: str) -> None:
     n_aug = 0
     for fi in prog.funcs:
-        if not fi.module.name.startswith(("yaw.correlation", "yaw.redshifts")):
+        if not fi.module.name.startswith(modules):
             continue
         augs = [x for x in walk_no_nested(fi.node) if isinstance(x, ast.AugAssign) and isinstance(x.target, ast.Name)]
         if not augs:
@@ -344,17 +348,16 @@ def rule_r6(prog, res) -> None:
             kind = storage_origin(prog, fi, ast.Name(id=a.target.id, ctx=ast.Load()), cfg, IN, nodes[0].id)
             if kind == "storage":
                 res.violation(
-                    "C03.R6",
+                    rule,
                     fi,
                     a,
-                    f"`{norm_stmt(a)}` updates in place an array that is a view of the container's (or an argument's) storage: the stored pair counts / samples are overwritten, "
-                    "every later sample or sum is computed from corrupted inputs",
+                    f"`{norm_stmt(a)}` updates in place an array that is a view of the container's (or an argument's) storage: {consequence}",
                     key_extra=f"inplace-on-view-{fi.qualname}-{a.target.id}",
                 )
             else:
-                res.ok("C03.R6", res.site(fi, norm_stmt(a)[:50]), f"in-place update of a {kind} array (not a view of stored data)", nontrivial=kind == "fresh")
+                res.ok(rule, res.site(fi, norm_stmt(a)[:50]), f"in-place update of a {kind} array (not a view of stored data)", nontrivial=kind == "fresh")
     if n_aug == 0:
-        res.ok("C03.R6", "no in-place updates", "no augmented assignment to a local array in the resampling modules", nontrivial=False)
+        res.ok(rule, "no in-place updates", "no augmented assignment to a local array in these modules", nontrivial=False)
 
 
 NARROW_INTS = {"i1", "i2", "u1", "u2", "int8", "int16", "uint8", "uint16"}
